@@ -1,7 +1,10 @@
 ------------------------------ MODULE MC_Heap ------------------------------
 EXTENDS AxCutHeap, Json
 \* every generated history is printed (one line of JSON) for replay into the real backends
-\* together with the abstract heap summary the design predicts after it (compared with the concrete heap of the generated code)
-EmitHist == hist # <<>> => PrintT("HIST " \o ToJson([h |-> hist, fin |-> [hp |-> hp.b, fp |-> fp.b, nlin |-> hv.nlinear, ndef |-> hv.ndeferred,
-                                                                         reach |-> hv.reach, F |-> hv.F]]))
+\* together with the abstract heap summary the design predicts after it (compared with the concrete heap of the generated code).
+\* Only histories of at least EmitFrom actions are printed, and of those one in EmitOneIn (the last BFS level alone has millions).
+CONSTANTS EmitFrom, EmitOneIn
+EmitHist == (Len(hist) >= EmitFrom /\ (EmitOneIn = 1 \/ RandomElement(1..EmitOneIn) = 1)) =>
+              PrintT("HIST " \o ToJson([h |-> hist, fin |-> [hp |-> hp.b, fp |-> fp.b, nlin |-> hv.nlinear, ndef |-> hv.ndeferred,
+                                                              reach |-> hv.reach, F |-> hv.F]]))
 =============================================================================
